@@ -165,12 +165,76 @@ def _dict_comp(mod, name):
     return node
 
 
+def _loop_rows(term, lp):
+    return term
+
+
+def _columns(chk, mod, dname, meaning, kterm, vterm, node, colname, params, data, keys):
+    # key and value columns: row = _ELEMENT_DATA[idx - 1]; row fields are ('sub', row, (k,))
+    def col_of(t):
+        a = t.as_atom()
+        if a and a[0] == "sub" and len(a[2]) == 1:
+            c = a[2][0].const_value()
+            base = a[1].as_atom()
+            if c is not None and base and base[0] == "sub" and base[1].key() == "_ELEMENT_DATA":
+                return int(c)
+            # enumerate(...)[k][1][c] : element 1 of the enumerate pair is the row
+            if c is not None and base and base[0] == "sub" and "_ELEMENT_DATA" in base[1].key() and base[2] and base[2][0].const_value() == 1:
+                return int(c)
+        a2 = t.as_atom()
+        if a2 and a2[0] == "lv":
+            return "index"
+        return None
+    kc = col_of(kterm)
+    chk.ob("R17.2", MOD, dname, f"{dname} is keyed by the {meaning} column",
+           kc is not None and kc != "index" and colname.get(kc) == meaning, node=node,
+           expected=meaning, found=colname.get(kc, kc))
+    vit = seq_items(vterm)
+    vcols = [col_of(t) for t in vit] if vit else None
+    exp = ["index"] + list(range(len(params) - 1))
+    chk.ob("R17.2", MOD, dname, f"{dname} values are (Z, name, symbol, cov, vdw, mass) in constructor order",
+           vcols == exp, node=node, expected=exp, found=vcols)
+    keys[dname] = [row[kc] for row in data] if isinstance(kc, int) else []
+
+
 def r17_2(chk, mod, data, params):
     # (a) construction of the dictionaries
     colname = {i: p for i, p in enumerate(params[1:])}      # row column -> meaning
     want_key = {"_EL_FROM_SYM": "symbol", "_EL_FROM_NAME": "name"}
     keys = {}
     for dname, meaning in want_key.items():
+        node0 = mod.toplevel_assign(dname)
+        if not isinstance(node0, ast.DictComp):
+            # loop form:  D = {} ; for z, (name, ...) in enumerate(_ELEMENT_DATA, start=1): D[key] = (z, ...)
+            loops = [st for st in mod.tree.body if isinstance(st, ast.For) and any(isinstance(n, ast.Subscript) and isinstance(n.value, ast.Name)
+                     and n.value.id == dname and isinstance(n.ctx, ast.Store) for n in ast.walk(st))]
+            fills = []
+            for st in loops:
+                lev = Ev([st], mod.ctx).run()
+                for e in lev.events:
+                    if e.kind == "store" and e.target.as_atom() and e.target.as_atom()[0] == "sub" and e.target.as_atom()[1].key() == dname and e.loops:
+                        fills.append((st, lev, e))
+            table_fills = [(st, lev, e) for st, lev, e in fills if "_ELEMENT_DATA" in (e.loops[-1].iter.key() if e.loops[-1].iter is not None else "")]
+            if not (isinstance(node0, ast.Dict) and not node0.keys and len(table_fills) == 1):
+                raise AnalysisError(f"{dname} is neither a dict comprehension nor an empty dict filled by one loop over the element table")
+            st, lev, e = table_fills[0]
+            node = st
+            lp = e.loops[-1]
+            kterm = e.target.as_atom()[2][0]
+            vterm = e.value
+            ok_gen = lp.kind == "enumerate"
+            start = lp.lo
+            src_ok = lp.iter is not None and "_ELEMENT_DATA" in lp.iter.key()
+            chk.ob("R17.2", MOD, dname, f"{dname} enumerates _ELEMENT_DATA starting at 1",
+                   bool(ok_gen and src_ok and start is not None and start == P.const(1)), node=node,
+                   expected="enumerate(_ELEMENT_DATA, start=1)", found=mod.seg(st.iter))
+            extra = [x for x in fills if x[2] is not e]
+            okx = all(x[2].value.as_atom() and x[2].value.as_atom()[0] == "sub" and x[2].value.as_atom()[1].key() == dname for x in extra)
+            chk.ob("R17.2", MOD, dname, "any further key is an alias of an existing entry", okx, fingerprint="aliases", nontrivial=bool(extra),
+                   found=[str(x[2].value)[:60] for x in extra][:3])
+            kterm, vterm = _loop_rows(kterm, lp), _loop_rows(vterm, lp)
+            _columns(chk, mod, dname, meaning, kterm, vterm, node, colname, params, data, keys)
+            continue
         node = _dict_comp(mod, dname)
         ev = Ev([ast.Expr(node)], mod.ctx)
         term = ev.ev(node).as_atom()
@@ -189,28 +253,7 @@ def r17_2(chk, mod, data, params):
         chk.ob("R17.2", MOD, dname, f"{dname} enumerates _ELEMENT_DATA starting at 1",
                bool(ok_gen and src_ok and start is not None and start == P.const(1)), node=node,
                expected="enumerate(_ELEMENT_DATA, start=1)", found=mod.seg(g.iter))
-        # key and value columns: row = _ELEMENT_DATA[idx - 1]; row fields are ('sub', row, (k,))
-        def col_of(t):
-            a = t.as_atom()
-            if a and a[0] == "sub" and len(a[2]) == 1:
-                c = a[2][0].const_value()
-                base = a[1].as_atom()
-                if c is not None and base and base[0] == "sub" and base[1].key() == "_ELEMENT_DATA":
-                    return int(c)
-            a2 = t.as_atom()
-            if a2 and a2[0] == "lv":
-                return "index"
-            return None
-        kc = col_of(kterm)
-        chk.ob("R17.2", MOD, dname, f"{dname} is keyed by the {meaning} column",
-               kc is not None and kc != "index" and colname.get(kc) == meaning, node=node,
-               expected=meaning, found=colname.get(kc, kc))
-        vit = seq_items(vterm)
-        vcols = [col_of(t) for t in vit] if vit else None
-        exp = ["index"] + list(range(len(params) - 1))
-        chk.ob("R17.2", MOD, dname, f"{dname} values are (Z, name, symbol, cov, vdw, mass) in constructor order",
-               vcols == exp, node=node, expected=exp, found=vcols)
-        keys[dname] = [row[kc] for row in data] if isinstance(kc, int) else []
+        _columns(chk, mod, dname, meaning, kterm, vterm, node, colname, params, data, keys)
 
     # (b) normaliser / key agreement: find every lookup (subscript or membership) in the module's functions
     nlook = 0
@@ -695,6 +738,31 @@ def r17_7(chk, mod, params):
         chk.ob("R17.7", MOD, q, "a count is printed exactly when it is greater than one", ok,
                fingerprint=f"threshold:{P.atom(cond)}", found=str(P.atom(a)))
     chk.need(len(thresholds) >= 2, "chemical_formula: expected two count-formatting branches")
+    # callers: every formula in the library comes from this one implementation
+    for rel, qq in (("core/molecule.py", "Molecule.molecular_formula"), ("crystal/asymmetric_unit.py", "AsymmetricUnit.formula")):
+        m2 = chk.repo.module(rel)
+        if qq not in m2.funcs:
+            continue
+        ev2 = m2.ev(qq)
+        chk.saw(rel, qq)
+        rets = [r for r in ev2.returns if r.value is not None and r.value.as_atom() and r.value.as_atom()[0] != "str"]
+        deleg = [r for r in rets if (call_name(r.value.as_atom()) or "").endswith("chemical_formula") and r.value.as_atom()[2]
+                 and r.value.as_atom()[2][0].key() in ("self.elements",)]
+        if rets and len(deleg) == len(rets):
+            chk.ob("R17.7", rel, qq, "the formula is chemical_formula(self.elements): one implementation of 'carbon first, then atomic number, every atom once'",
+                   True, fingerprint="formula-delegates")
+            continue
+        # another implementation: a recognised wrong idiom is reported, anything else cannot be decided here
+        swaps = [e for e in ev2.events if e.kind == "store" and e.target.as_atom() and e.target.as_atom()[0] == "sub" and len(e.target.as_atom()[2]) == 1
+                 and seq_items(e.target.as_atom()[2][0]) and len(seq_items(e.target.as_atom()[2][0])) == 2 and e.value.as_atom()
+                 and e.value.as_atom()[0] == "sub" and e.value.as_atom()[1].key() == e.target.as_atom()[1].key()]
+        if swaps:
+            chk.ob("R17.7", rel, qq, "the formula is chemical_formula(self.elements): one implementation of 'carbon first, then atomic number, every atom once'",
+                   False, node=swaps[0].node, fingerprint="formula-delegates", expected="chemical_formula(self.elements, ...)",
+                   found=f"own ordering by exchanging two slots of a sorted array ({swaps[0].target} = {str(swaps[0].value)[:60]}): the element that was first "
+                         "lands behind larger atomic numbers")
+            continue
+        raise AnalysisError(f"{rel}:{qq}: the formula is no longer delegated to chemical_formula(self.elements) and the replacement is not recognised")
     # column helpers
     col = {p: i for i, p in enumerate(params[1:])}
     for q, meaning in (("cov_radii", "cov"), ("vdw_radii", "vdw"), ("element_names", "name"), ("element_symbols", "symbol")):
